@@ -269,7 +269,7 @@ func c19ServerLookup(c *Ctx) {
 				if u, ok := lk.Index.(*ssa.UnOp); ok {
 					if al, ok := u.X.(*ssa.Alloc); ok {
 						for _, rr := range *al.Referrers() {
-							if fc, ok := rr.(*ssa.Call); ok && fc.Call.StaticCallee() != nil && fc.Call.StaticCallee().Name() == "fill" && len(fc.Call.Args) == 3 {
+							if fc, ok := rr.(*ssa.Call); ok && fc.Call.StaticCallee() != nil && core.FnName(fc.Call.StaticCallee()) == "fill" && len(fc.Call.Args) == 3 {
 								a1, a2 := core.PathOf(fc.Call.Args[1]), core.PathOf(fc.Call.Args[2])
 								if strings.HasSuffix(a1, ".IP") && strings.HasSuffix(a2, ".Port") && strings.TrimSuffix(a1, ".IP") == strings.TrimSuffix(a2, ".Port") {
 									keyOK = true
@@ -333,8 +333,11 @@ func c19ClientsMap(c *Ctx) {
 			if !w {
 				continue
 			}
-			n := fnKeyOf(acc.Fn)
-			if !strings.HasSuffix(n, "addClient") && !strings.HasSuffix(n, "removeClient") {
+			root := acc.Fn
+			for root.Parent() != nil {
+				root = root.Parent()
+			}
+			if !isFn(root, "", "serverUDPListener.addClient") && !isFn(root, "", "serverUDPListener.removeClient") {
 				bad++
 				r.Fail("C19/CLIENTS-MAP", fnShort(acc.Fn)+" writes serverUDPListener.clients", p.Pos(u.Pos()), "only addClient / removeClient register or remove peers")
 			}
